@@ -198,14 +198,14 @@ structure Stages (ph : PH) (first last : Nat) (ms : List Message) (m m1 m' : Mes
       (r1.ts ≤ lapEndTime ph m → m1 = rewriteStart ph r1 m ∨ (m1 = m ∧ r1.ts ≤ lapStartTime ph m))
   end0 : last = 0 → m' = m1
   endNone : last ≠ 0 → lastRevealed last ms = none → m' = strip4 ph m1
-  endSome : last ≠ 0 → ∀ rl, lastRevealed last ms = some rl →
+  /-- the stretches overlap (`lastConcealStartIndex > lastConcealEndIndex`): no record is left revealed (/repo fix of KF-C20-4) -/
+  endOv : last ≠ 0 → ov = true → m' = strip4 ph m1
+  endSome : last ≠ 0 → ov = false → ∀ rl, lastRevealed last ms = some rl →
       r2.ts = tstamp rl ∧
       (inStart first rl = true → r2.lat = sint32Invalid ∧ r2.long = sint32Invalid) ∧
       (inStart first rl = false → r2.lat = i32 (fval rl fnRecordPositionLat) ∧ r2.long = i32 (fval rl fnRecordPositionLong)) ∧
       (r2.ts < lapStartTime ph m1 → m' = strip4 ph m1) ∧
-      (lapStartTime ph m1 ≤ r2.ts → m' = rewriteEnd ph r2 ov m1 ∨ (m' = m1 ∧ lapEndTime ph m1 ≤ r2.ts))
-  ovT : first ≠ 0 → last ≠ 0 → ∀ r0 rl, firstRevealed first ms = some r0 → lastRevealed last ms = some rl →
-      ov = true → inEnd last ms r0 = true ∧ tstamp rl < tstamp r0
+      (lapStartTime ph m1 ≤ r2.ts → m' = rewriteEnd ph r2 false m1 ∨ (m' = m1 ∧ lapEndTime ph m1 ≤ r2.ts))
   ovF : first ≠ 0 → last ≠ 0 → ∀ r0 rl, firstRevealed first ms = some r0 → lastRevealed last ms = some rl →
       ov = false → inEnd last ms r0 = false
 
@@ -218,7 +218,7 @@ theorem startField_ok {ph : PH} {first last : Nat} {ms : List Message} {m m1 m' 
     (hU : (fsn n m).length ≤ 1)
     (e_strip : ∀ x, fsn n (strip4 ph x) = (fsn n x).tail)
     (e_rs : ∀ x, fsn n (rewriteStart ph r1 x) = if v1 = sint32Invalid then (fsn n x).tail else setHead (.int32 v1) (fsn n x))
-    (e_re : ∀ x, fsn n (rewriteEnd ph r2 ov x) = if ov then (fsn n x).tail else fsn n x)
+    (e_re : ∀ x, fsn n (rewriteEnd ph r2 false x) = fsn n x)
     (hv1 : ∀ r, r1 = recInfo r → v1 = i32 (fval r coord)) :
     posFieldOK (startAnchor first last ms) coord (inWindow first last ms (lapStartTime ph m)) m' n = true := by
   rw [posFieldOK_eq]
@@ -258,22 +258,23 @@ theorem startField_ok {ph : PH} {first last : Nat} {ms : List Message} {m m1 m' 
   have tl1 := tail_nil_of_le_one len1
   -- after the end stage
   have endc : fsn n m' = [] ∨ (fsn n m' = fsn n m1 ∧ (last = 0 ∨ ∃ rl, last ≠ 0 ∧ lastRevealed last ms = some rl ∧
-      lapStartTime ph m ≤ tstamp rl ∧ (ov = false ∨ lapEndTime ph m ≤ tstamp rl))) := by
+      lapStartTime ph m ≤ tstamp rl ∧ ov = false)) := by
     by_cases hl0 : last = 0
     · right; exact ⟨by rw [sg.end0 hl0], Or.inl hl0⟩
-    · cases hRL : lastRevealed last ms with
+    · cases hov : ov with
+      | true => left; rw [sg.endOv hl0 hov, e_strip, tl1]
+      | false =>
+      cases hRL : lastRevealed last ms with
       | none => left; rw [sg.endNone hl0 hRL, e_strip, tl1]
       | some rl =>
-        obtain ⟨hts, _, _, hc, hd⟩ := sg.endSome hl0 rl hRL
+        obtain ⟨hts, _, _, hc, hd⟩ := sg.endSome hl0 hov rl hRL
         rw [sg.s1] at hc hd
         rw [sg.e1] at hd
         by_cases hlt : r2.ts < lapStartTime ph m
         · left; rw [hc hlt, e_strip, tl1]
         · rcases hd (by omega) with h | ⟨h, h2⟩
-          · cases hov : ov
-            · right; refine ⟨by rw [h, e_re, hov]; simp, Or.inr ⟨rl, hl0, rfl, by omega, Or.inl rfl⟩⟩
-            · left; rw [h, e_re, hov]; simp [tl1]
-          · right; exact ⟨by rw [h], Or.inr ⟨rl, hl0, rfl, by omega, Or.inr (by omega)⟩⟩
+          · right; exact ⟨by rw [h, e_re], Or.inr ⟨rl, hl0, rfl, by omega, rfl⟩⟩
+          · right; exact ⟨by rw [h], Or.inr ⟨rl, hl0, rfl, by omega, rfl⟩⟩
   rcases endc with h | ⟨h, hw⟩
   · rw [h]; rfl
   rw [h]
@@ -291,13 +292,9 @@ theorem startField_ok {ph : PH} {first last : Nat} {ms : List Message} {m m1 m' 
     have hsa : startAnchor first last ms = some r0 := by
       have hne0 : (first == 0) = false := by simpa using hf0
       have hie : inEnd last ms r0 = false := by
-        rcases hw with hl0 | ⟨rl, hl0, hRL, _, hov | hle⟩
+        rcases hw with hl0 | ⟨rl, hl0, hRL, _, hov⟩
         · rw [hl0]; exact inEnd_zero ms r0
         · exact sg.ovF hf0 hl0 r0 rl hR0 hRL hov
-        · cases hov : ov
-          · exact sg.ovF hf0 hl0 r0 rl hR0 hRL hov
-          · have := (sg.ovT hf0 hl0 r0 rl hR0 hRL hov).2
-            omega
       simp [startAnchor, hne0, hR0, Option.filter, hie]
     exact all_setHead hU _ _ (fieldQ_anchor hsa hv hne)
 
@@ -307,7 +304,7 @@ theorem endField_ok {ph : PH} {first last : Nat} {ms : List Message} {m m1 m' : 
     (hU : (fsn n m).length ≤ 1)
     (e_strip : ∀ x, fsn n (strip4 ph x) = (fsn n x).tail)
     (e_rs : ∀ x, fsn n (rewriteStart ph r1 x) = fsn n x)
-    (e_re : ∀ x, fsn n (rewriteEnd ph r2 ov x) = if v2 = sint32Invalid then (fsn n x).tail else setHead (.int32 v2) (fsn n x))
+    (e_re : ∀ x, fsn n (rewriteEnd ph r2 false x) = if v2 = sint32Invalid then (fsn n x).tail else setHead (.int32 v2) (fsn n x))
     (hv2a : r2.lat = sint32Invalid ∧ r2.long = sint32Invalid → v2 = sint32Invalid)
     (hv2b : ∀ rl, r2.lat = i32 (fval rl fnRecordPositionLat) ∧ r2.long = i32 (fval rl fnRecordPositionLong) → v2 = i32 (fval rl coord)) :
     posFieldOK (endAnchor first last ms) coord (inWindow first last ms (lapEndTime ph m)) m' n = true := by
@@ -346,10 +343,13 @@ theorem endField_ok {ph : PH} {first last : Nat} {ms : List Message} {m m1 m' : 
     · rw [h]; rfl
     · have js : inWindow first last ms (lapEndTime ph m) = true := by simp [inWindow, haft, beforeEnd, hl0]
       exact List.all_eq_true.mpr fun f _ => fieldQ_js js f
-  · cases hRL : lastRevealed last ms with
+  · cases hov : ov with
+    | true => rw [sg.endOv hl0 hov, e_strip, tl1]; rfl
+    | false =>
+    cases hRL : lastRevealed last ms with
     | none => rw [sg.endNone hl0 hRL, e_strip, tl1]; rfl
     | some rl =>
-      obtain ⟨hts, hin, hout, hc, hd⟩ := sg.endSome hl0 rl hRL
+      obtain ⟨hts, hin, hout, hc, hd⟩ := sg.endSome hl0 hov rl hRL
       rw [sg.s1] at hc hd
       rw [sg.e1] at hd
       by_cases hlt : r2.ts < lapStartTime ph m
@@ -384,13 +384,13 @@ theorem lapOK_of_stages {ph : PH} (hd : PHDistinct ph) {first last : Nat} {ms : 
   simp only [Bool.and_eq_true]
   refine ⟨⟨⟨?_, ?_⟩, ?_⟩, ?_⟩
   · exact startField_ok sg ph.sLat fnRecordPositionLat r1.lat u1 (fsn_strip4_sLat hd) (fsn_rewriteStart_sLat hd r1)
-      (fsn_rewriteEnd_sLat hd r2 ov) (fun r h => by rw [h]; rfl)
+      (fun x => by rw [fsn_rewriteEnd_sLat hd r2 false x]; rfl) (fun r h => by rw [h]; rfl)
   · exact startField_ok sg ph.sLong fnRecordPositionLong r1.long u2 (fsn_strip4_sLong hd) (fsn_rewriteStart_sLong hd r1)
-      (fsn_rewriteEnd_sLong hd r2 ov) (fun r h => by rw [h]; rfl)
+      (fun x => by rw [fsn_rewriteEnd_sLong hd r2 false x]; rfl) (fun r h => by rw [h]; rfl)
   · exact endField_ok sg ph.eLat fnRecordPositionLat r2.lat u3 (fsn_strip4_eLat hd) (fsn_rewriteStart_eLat hd r1)
-      (fsn_rewriteEnd_eLat hd r2 ov) (fun h => h.1) (fun rl h => h.1)
+      (fsn_rewriteEnd_eLat hd r2 false) (fun h => h.1) (fun rl h => h.1)
   · exact endField_ok sg ph.eLong fnRecordPositionLong r2.long u4 (fsn_strip4_eLong hd) (fsn_rewriteStart_eLong hd r1)
-      (fsn_rewriteEnd_eLong hd r2 ov) (fun h => h.2) (fun rl h => h.2)
+      (fsn_rewriteEnd_eLong hd r2 false) (fun h => h.2) (fun rl h => h.2)
 
 /-! ### where the two scans stop -/
 
@@ -1097,31 +1097,31 @@ theorem concealStart_pos {first : Nat} (h : first ≠ 0) (ms : List Message) :
 
 theorem concealEnd_zero (idx : Int) (A : List Message) : concealEnd 0 idx A = A := by simp [concealEnd]
 
+/-- the record index `updateEndPosition` is handed: −1 when the stretches overlap (/repo fix of KF-C20-4) -/
+def endIdxOf (idx : Int) (e : Int) : Int := if idx > e then -1 else e
+
 theorem concealEnd_pos {last : Nat} (h : last ≠ 0) (idx : Int) (A : List Message) :
     concealEnd last idx A =
-      (updEndRev sesPH (recAt (scanEndRev last uint32Invalid A.reverse).1.reverse (scanEndRev last uint32Invalid A.reverse).2)
-        (decide (idx > (scanEndRev last uint32Invalid A.reverse).2))
-        (updEndRev lapPH (recAt (scanEndRev last uint32Invalid A.reverse).1.reverse (scanEndRev last uint32Invalid A.reverse).2)
-          (decide (idx > (scanEndRev last uint32Invalid A.reverse).2)) (scanEndRev last uint32Invalid A.reverse).1)).reverse := by
-  simp [concealEnd, h]
+      (updEndRev sesPH (recAt (scanEndRev last uint32Invalid A.reverse).1.reverse (endIdxOf idx (scanEndRev last uint32Invalid A.reverse).2))
+        (decide (idx > endIdxOf idx (scanEndRev last uint32Invalid A.reverse).2))
+        (updEndRev lapPH (recAt (scanEndRev last uint32Invalid A.reverse).1.reverse (endIdxOf idx (scanEndRev last uint32Invalid A.reverse).2))
+          (decide (idx > endIdxOf idx (scanEndRev last uint32Invalid A.reverse).2)) (scanEndRev last uint32Invalid A.reverse).1)).reverse := by
+  simp [concealEnd, h, endIdxOf]
 
-/-- **No lap or session position points into a concealed stretch**, outside the class of KF-C20-1 (F17). -/
-theorem conceal_noLeak {ph : PH} (hph : ph = lapPH ∨ ph = sesPH) (first last : Nat) (ms : List Message)
-    (hD : DistOK ms) (hT : recTimesIncB ms = true) (hseq : lapsSeqB ph ms = true)
-    (hUr : recUniqueB ms = true) (hUl : lapUniqueB ph ms = true) (hF : unitsDisagree ph first ms = false) :
-    noLeakB ph first last ms (conceal first last ms) = true := by
+/-- **What concealing does to each lap / session**, outside the class of KF-C20-1 (F17): the facts `Stages` about every lap
+(session) `m`, what it is after the start stage (`m1`) and after the end stage (`m'`), with the records the two scans stop
+at and the overlap flag. (The class of KF-C20-4 — overlapping stretches with a timestamp tie at the boundary — needed a
+hypothesis until /repo's fix: with overlapping stretches the end stage now strips every lap and session.) -/
+theorem conceal_stages {ph : PH} (hph : ph = lapPH ∨ ph = sesPH) (first last : Nat) (ms : List Message)
+    (hD : DistOK ms) (hseq : lapsSeqB ph ms = true)
+    (hUr : recUniqueB ms = true) (hF : unitsDisagree ph first ms = false) :
+    ∃ (r1 r2 : RecInfo) (ov : Bool),
+      Rel2 (fun m m' => (m.num == ph.mesgNum) = true → ∃ m1, Stages ph first last ms m m1 m' r1 r2 ov) ms (conceal first last ms) := by
   obtain ⟨hval, hseqP, hseqR⟩ := lapsSeqB_spec hseq
-  have hTp : ((ms.filter isRecord).map tstamp).Pairwise (· < ·) := sortedLtB_pairwise _ hT
   have hUr' : ∀ m ∈ ms, isRecord m = true → UniqueNum fnRecordPositionLat m ∧ UniqueNum fnRecordPositionLong m := by
     intro m hm hr
     have := List.all_eq_true.mp hUr m hm
     simpa [hr, uniqueNumB, UniqueNum] using this
-  have hUl' : ∀ m ∈ ms, (m.num == ph.mesgNum) = true →
-      UniqueNum ph.sLat m ∧ UniqueNum ph.sLong m ∧ UniqueNum ph.eLat m ∧ UniqueNum ph.eLong m := by
-    intro m hm hn
-    have := List.all_eq_true.mp hUl m hm
-    simp only [hn, Bool.not_true, Bool.false_or, uniqueNumB, Bool.and_eq_true, decide_eq_true_eq] at this
-    exact ⟨this.1.1.1, this.1.1.2, this.1.2, this.2⟩
   -- the start stage
   obtain ⟨S, hS⟩ : ∃ S, S = scanStart first 0 ms := ⟨_, rfl⟩
   obtain ⟨r1, hr1⟩ : ∃ r1, r1 = recAt S.1 S.2 := ⟨_, rfl⟩
@@ -1179,20 +1179,37 @@ theorem conceal_noLeak {ph : PH} (hph : ph = lapPH ∨ ph = sesPH) (first last :
     · exact Rel2.imp (fun a b h hn => ⟨fun h0 => absurd h0 hf0, fun _ => h hn⟩) (startRel hf0)
   -- the end stage
   obtain ⟨E, hE⟩ : ∃ E, E = scanEndRev last uint32Invalid A.reverse := ⟨_, rfl⟩
-  obtain ⟨r2, hr2⟩ : ∃ r2, r2 = recAt E.1.reverse E.2 := ⟨_, rfl⟩
-  obtain ⟨ov, hov⟩ : ∃ ov, ov = decide (idxS > E.2) := ⟨_, rfl⟩
+  obtain ⟨r2s, hr2s⟩ : ∃ r2s, r2s = recAt E.1.reverse E.2 := ⟨_, rfl⟩   -- the record the backward scan stops at
+  obtain ⟨ov, hov⟩ : ∃ ov, ov = decide (idxS > E.2) := ⟨_, rfl⟩          -- the stretches overlap
+  obtain ⟨r2, hr2⟩ : ∃ r2, r2 = recAt E.1.reverse (endIdxOf idxS E.2) := ⟨_, rfl⟩   -- what `updateEndPosition` is handed
+  obtain ⟨ov2, hov2⟩ : ∃ ov2, ov2 = decide (idxS > endIdxOf idxS E.2) := ⟨_, rfl⟩
+  have hovT : ov = true → r2 = noRec := by
+    intro h
+    have : idxS > E.2 := by simpa [hov] using h
+    rw [hr2, endIdxOf, if_pos this]; exact recAt_neg _
+  have hovF : ov = false → r2 = r2s ∧ ov2 = false := by
+    intro h
+    have : ¬ idxS > E.2 := by simpa [hov] using h
+    refine ⟨by rw [hr2, hr2s, endIdxOf, if_neg this], ?_⟩
+    rw [hov2, endIdxOf, if_neg this]; simpa using this
   have hout : conceal first last ms = concealEnd last idxS A := by rw [hA, hidx]; rfl
   have ef : last ≠ 0 → _ := fun hl0 => scanEnd_facts first last ms A hD hRecA hl0
-  rw [← hE, ← hr2] at ef
+  rw [← hE, ← hr2s] at ef
   have G3 : last ≠ 0 → lastRevealed last ms = none → r2.absent = true := by
     intro hl0 hn
-    rcases ef hl0 with ⟨_, _, h⟩ | ⟨_, _, _, _, _, _, _, h, _⟩
-    · rw [h]; rfl
-    · rw [hn] at h; cases h
-  have G4 : last ≠ 0 → ∀ rl, lastRevealed last ms = some rl → r2.absent = false ∧ r2.ts = tstamp rl ∧
+    cases ho : ov with
+    | true => rw [hovT ho]; rfl
+    | false =>
+      rw [(hovF ho).1]
+      rcases ef hl0 with ⟨_, _, h⟩ | ⟨_, _, _, _, _, _, _, h, _⟩
+      · rw [h]; rfl
+      · rw [hn] at h; cases h
+  have G3ov : ov = true → r2.absent = true := fun ho => by rw [hovT ho]; rfl
+  have G4 : last ≠ 0 → ov = false → ∀ rl, lastRevealed last ms = some rl → r2.absent = false ∧ r2.ts = tstamp rl ∧
       (inStart first rl = true → r2.lat = sint32Invalid ∧ r2.long = sint32Invalid) ∧
       (inStart first rl = false → r2.lat = i32 (fval rl fnRecordPositionLat) ∧ r2.long = i32 (fval rl fnRecordPositionLong)) := by
-    intro hl0 rl hrl
+    intro hl0 ho rl hrl
+    rw [(hovF ho).1]
     rcases ef hl0 with ⟨h, _⟩ | ⟨X, rl', Y, ems, hrec, _, _, h, _, h2⟩
     · rw [hrl] at h; cases h
     · rw [hrl] at h; cases h
@@ -1205,7 +1222,7 @@ theorem conceal_noLeak {ph : PH} (hph : ph = lapPH ∨ ph = sesPH) (first last :
       · have : hideIf (inStart first) rl = rl := by simp [hideIf, his]
         rw [this]; exact ⟨rfl, rfl⟩
   have Gov : first ≠ 0 → last ≠ 0 → ∀ r0 rl, firstRevealed first ms = some r0 → lastRevealed last ms = some rl →
-      (ov = true → inEnd last ms r0 = true ∧ tstamp rl < tstamp r0) ∧ (ov = false → inEnd last ms r0 = false) := by
+      (ov = false → inEnd last ms r0 = false) := by
     intro hf0 hl0 r0 rl hR0 hRL
     have eidx : idxS = S.2 := by rw [hidx, concealStart_pos hf0, hS]
     rcases sf with ⟨h, _⟩ | ⟨pre0, r0', post0, e0, hpre0, hrec0, hns0, h, hi0, _⟩
@@ -1220,15 +1237,11 @@ theorem conceal_noLeak {ph : PH} (hph : ph = lapPH ∨ ph = sesPH) (first last :
     have hcmp := split_compare X rl Y pre0 r0 post0 (by rw [← ems, ← e0])
     rcases hcmp with ⟨hlt, mid, e1, e2⟩ | ⟨heq, e1, e2, e3⟩ | ⟨hlt, mid, e1, e2⟩
     · -- the last revealed record lies before the first revealed one: overlap
-      have hmem : r0 ∈ Y := by rw [e2]; simp
-      refine ⟨fun _ => ⟨hYe r0 hmem hrec0, ?_⟩, fun h => ?_⟩
-      · exact pairwise_pick hTp (X := X) (a := rl) (mid := mid) (b := r0) (rest := post0) (by rw [ems, e2]) hrecl hrec0
-      · rw [hovv] at h; simp at h; omega
-    · refine ⟨fun h => ?_, fun _ => ?_⟩
-      · rw [hovv] at h; simp at h; omega
-      · rw [← e2]; exact hiel
-    · refine ⟨fun h => ?_, fun _ => ?_⟩
-      · rw [hovv] at h; simp at h; omega
+      intro h
+      rw [hovv] at h; simp at h; omega
+    · intro _
+      rw [← e2]; exact hiel
+    · intro _
       · have hle : dist r0 ≤ dist rl :=
           pairwise_pick (R := (· ≤ ·)) hD.2 (X := pre0) (a := r0) (mid := mid) (b := rl) (rest := Y) (by rw [e0, e2]) hrec0 hrecl
         simp only [inEnd, decide_eq_false_iff_not] at hiel ⊢
@@ -1236,14 +1249,14 @@ theorem conceal_noLeak {ph : PH} (hph : ph = lapPH ∨ ph = sesPH) (first last :
   have endInfo : Rel2 (fun m1 m' => (m1.num == ph.mesgNum) = true → (last = 0 → m' = m1) ∧
       (last ≠ 0 → r2.absent = true → m' = strip4 ph m1) ∧
       (last ≠ 0 → r2.absent = false → (r2.ts < lapStartTime ph m1 → m' = strip4 ph m1) ∧
-        (lapStartTime ph m1 ≤ r2.ts → m' = rewriteEnd ph r2 ov m1 ∨ (m' = m1 ∧ lapEndTime ph m1 ≤ r2.ts))))
+        (lapStartTime ph m1 ≤ r2.ts → m' = rewriteEnd ph r2 ov2 m1 ∨ (m' = m1 ∧ lapEndTime ph m1 ≤ r2.ts))))
       A (conceal first last ms) := by
     rw [hout]
     by_cases hl0 : last = 0
     · rw [hl0, concealEnd_zero]
       exact Rel2.refl (fun a _ => ⟨fun _ => rfl, fun h => absurd rfl h, fun h => absurd rfl h⟩) _
-    · have eO : concealEnd last idxS A = (updEndRev sesPH r2 ov (updEndRev lapPH r2 ov E.1)).reverse := by
-        rw [concealEnd_pos hl0, hr2, hov, hE]
+    · have eO : concealEnd last idxS A = (updEndRev sesPH r2 ov2 (updEndRev lapPH r2 ov2 E.1)).reverse := by
+        rw [concealEnd_pos hl0, hr2, hov2, hE]
       rw [eO]
       have hsE : Rel2 (SameT ph) ms.reverse E.1 :=
         touch_list_sameT hph (touch2_trans hTouchA.reverse (hE ▸ scanEndRev_touch last A.reverse uint32Invalid))
@@ -1251,8 +1264,8 @@ theorem conceal_noLeak {ph : PH} (hph : ph = lapPH ∨ ph = sesPH) (first last :
       cases hab : r2.absent
       · have hvR : ∀ m ∈ ms.reverse, (m.num == ph.mesgNum) = true → lapStartTime ph m ≠ uint32Invalid :=
           fun m hm hn => (hval m (List.mem_reverse.mp hm) hn).1
-        have st := endStage_list hph r2 ov hab E.1 (2 ^ 32) (lapsSeqRevP_sameT hsE _ hseqR) (hv_transfer hsE hvR)
-        have c : Rel2 (EndStageOK ph r2 ov) A.reverse (updEndRev sesPH r2 ov (updEndRev lapPH r2 ov E.1)) := by
+        have st := endStage_list hph r2 ov2 hab E.1 (2 ^ 32) (lapsSeqRevP_sameT hsE _ hseqR) (hv_transfer hsE hvR)
+        have c : Rel2 (EndStageOK ph r2 ov2) A.reverse (updEndRev sesPH r2 ov2 (updEndRev lapPH r2 ov2 E.1)) := by
           refine Rel2.comp ?_ pre st
           intro a b d hp hs' hn
           have := hp (isPh_not_record hph hn)
@@ -1261,9 +1274,9 @@ theorem conceal_noLeak {ph : PH} (hph : ph = lapPH ∨ ph = sesPH) (first last :
         have c' := c.reverse
         rw [List.reverse_reverse] at c'
         exact Rel2.imp (fun a b h hn => ⟨fun h0 => absurd h0 hl0, fun _ h1 => (by cases h1), fun _ _ => h hn⟩) c'
-      · have st := endStage_list_absent hph r2 ov hab E.1
+      · have st := endStage_list_absent hph r2 ov2 hab E.1
         have c : Rel2 (fun m m' => (m.num == ph.mesgNum) = true → m' = strip4 ph m) A.reverse
-            (updEndRev sesPH r2 ov (updEndRev lapPH r2 ov E.1)) := by
+            (updEndRev sesPH r2 ov2 (updEndRev lapPH r2 ov2 E.1)) := by
           refine Rel2.comp ?_ pre st
           intro a b d hp hs' hn
           have := hp (isPh_not_record hph hn)
@@ -1273,31 +1286,80 @@ theorem conceal_noLeak {ph : PH} (hph : ph = lapPH ∨ ph = sesPH) (first last :
         rw [List.reverse_reverse] at c'
         exact Rel2.imp (fun a b h hn => ⟨fun h0 => absurd h0 hl0, fun _ _ => h hn, fun _ h1 => (by cases h1)⟩) c'
   -- one lap / session at a time
+  refine ⟨r1, r2, ov, ?_⟩
+  refine Rel2.comp ?_ (Rel2.and (Rel2.and hTouchA startInfo) (Rel2.left_mem hTouchA)) endInfo
+  intro m m1 m' ⟨⟨ht, hst⟩, hmem⟩ hen hn
+  have hsT := touch_sameT hph ht
+  have hn1 : (m1.num == ph.mesgNum) = true := by rw [hsT.isPh]; exact hn
+  obtain ⟨hs0, hsN⟩ := hst hn
+  obtain ⟨he0, heA, heN⟩ := hen hn1
+  obtain ⟨_, _, hvm⟩ := hval m hmem hn
+  refine ⟨m1,
+    { endLt := ?_, s1 := hsT.start, e1 := hsT.endT, start0 := hs0, startNone := G1, startSome := G2, start := hsN,
+      end0 := he0, endNone := fun hl0 hnone => heA hl0 (G3 hl0 hnone), endOv := fun hl0 ho => heA hl0 (G3ov ho),
+      endSome := ?_, ovF := fun hf0 hl0 r0 rl h0 hl => Gov hf0 hl0 r0 rl h0 hl }⟩
+  · have hdiv : u32 (fval m ph.totalTimerTime) / timerScale ≤ u32 (fval m ph.totalTimerTime) := Nat.div_le_self _ _
+    have he : lapEndTime ph m = lapStartTime ph m + u32 (fval m ph.totalTimerTime) / timerScale := rfl
+    omega
+  · intro hl0 ho rl hrl
+    obtain ⟨hab, hts, hin, hout'⟩ := G4 hl0 ho rl hrl
+    obtain ⟨hc, hdd⟩ := heN hl0 hab
+    rw [(hovF ho).2] at hdd
+    exact ⟨hts, hin, hout', hc, hdd⟩
+
+/-- **No lap or session position points into a concealed stretch**, outside the class of KF-C20-1 (F17): what the two
+stages do to each lap / session (`conceal_stages`) leaves no position pointing into a stretch (`lapOK_of_stages`). -/
+theorem conceal_noLeak {ph : PH} (hph : ph = lapPH ∨ ph = sesPH) (first last : Nat) (ms : List Message)
+    (hD : DistOK ms) (hseq : lapsSeqB ph ms = true)
+    (hUr : recUniqueB ms = true) (hUl : lapUniqueB ph ms = true) (hF : unitsDisagree ph first ms = false) :
+    noLeakB ph first last ms (conceal first last ms) = true := by
+  obtain ⟨r1, r2, ov, hst⟩ := conceal_stages hph first last ms hD hseq hUr hF
   have hd := phDistinct hph
   have final : Rel2 (fun m m' => (!(m.num == ph.mesgNum) || lapOK ph first last ms m m') = true) ms (conceal first last ms) := by
-    refine Rel2.comp ?_ (Rel2.and (Rel2.and hTouchA startInfo) (Rel2.left_mem hTouchA)) endInfo
-    intro m m1 m' ⟨⟨ht, hst⟩, hmem⟩ hen
+    refine Rel2.imp ?_ (Rel2.and hst (Rel2.left_mem hst))
+    intro m m' ⟨h, hmem⟩
     cases hn : (m.num == ph.mesgNum)
     · rfl
     simp only [Bool.not_true, Bool.false_or]
-    have hsT := touch_sameT hph ht
-    have hn1 : (m1.num == ph.mesgNum) = true := by rw [hsT.isPh]; exact hn
-    obtain ⟨hs0, hsN⟩ := hst hn
-    obtain ⟨he0, heA, heN⟩ := hen hn1
-    obtain ⟨_, _, hvm⟩ := hval m hmem hn
-    refine lapOK_of_stages hd (m1 := m1) (r1 := r1) (r2 := r2) (ov := ov) ?_ (hUl' m hmem hn)
-    refine
-      { endLt := ?_, s1 := hsT.start, e1 := hsT.endT, start0 := hs0, startNone := G1, startSome := G2, start := hsN,
-        end0 := he0, endNone := fun hl0 hnone => heA hl0 (G3 hl0 hnone), endSome := ?_,
-        ovT := fun hf0 hl0 r0 rl h0 hl => (Gov hf0 hl0 r0 rl h0 hl).1,
-        ovF := fun hf0 hl0 r0 rl h0 hl => (Gov hf0 hl0 r0 rl h0 hl).2 }
-    · have hdiv : u32 (fval m ph.totalTimerTime) / timerScale ≤ u32 (fval m ph.totalTimerTime) := Nat.div_le_self _ _
-      have he : lapEndTime ph m = lapStartTime ph m + u32 (fval m ph.totalTimerTime) / timerScale := rfl
-      omega
-    · intro hl0 rl hrl
-      obtain ⟨hab, hts, hin, hout'⟩ := G4 hl0 rl hrl
-      obtain ⟨hc, hdd⟩ := heN hl0 hab
-      exact ⟨hts, hin, hout', hc, hdd⟩
+    obtain ⟨m1, sg⟩ := h hn
+    have := List.all_eq_true.mp hUl m hmem
+    simp only [hn, Bool.not_true, Bool.false_or, uniqueNumB, Bool.and_eq_true, decide_eq_true_eq] at this
+    exact lapOK_of_stages hd sg ⟨this.1.1.1, this.1.1.2, this.1.2, this.2⟩
   exact Rel2.zip_all (p := fun m m' => !(m.num == ph.mesgNum) || lapOK ph first last ms m m') final
+
+/-- strictly increasing record timestamps exclude the class of KF-C20-4 (so the statement under `recTimesIncB`, as it
+was first proved, follows from `conceal_noLeak`) -/
+theorem overlapTie_false_of_inc (first last : Nat) (ms : List Message) (hD : DistOK ms) (hT : recTimesIncB ms = true) :
+    overlapTie first last ms = false := by
+  have hTp : ((ms.filter isRecord).map tstamp).Pairwise (· < ·) := sortedLtB_pairwise _ hT
+  unfold overlapTie
+  cases h0 : firstRevealed first ms with
+  | none => simp
+  | some r0 =>
+    cases hl : lastRevealed last ms with
+    | none => simp
+    | some rl =>
+      simp only
+      cases hie : inEnd last ms r0 with
+      | false => simp
+      | true =>
+        have hlt : tstamp rl < tstamp r0 := by
+          obtain ⟨hp0, pre0, post0, e0, _⟩ := List.find?_eq_some_iff_append.mp h0
+          obtain ⟨hpl, as, bs, el, _⟩ := List.find?_eq_some_iff_append.mp hl
+          have ems : ms = bs.reverse ++ rl :: as.reverse := by
+            have := congrArg List.reverse el
+            simpa using this
+          simp only [Bool.and_eq_true, Bool.not_eq_true'] at hp0 hpl
+          rcases split_compare bs.reverse rl as.reverse pre0 r0 post0 (by rw [← ems, ← e0]) with
+            ⟨_, mid, _, e2⟩ | ⟨_, _, e2, _⟩ | ⟨_, mid, e1, e2⟩
+          · exact pairwise_pick hTp (X := bs.reverse) (a := rl) (mid := mid) (b := r0) (rest := post0) (by rw [ems, e2]) hpl.1 hp0.1
+          · rw [e2] at hpl; rw [hpl.2] at hie; cases hie
+          · have hle : dist r0 ≤ dist rl :=
+              pairwise_pick (R := (· ≤ ·)) hD.2 (X := pre0) (a := r0) (mid := mid) (b := rl) (rest := as.reverse)
+                (by rw [e0, e2]) hp0.1 hpl.1
+            have h1 := hpl.2
+            simp only [inEnd, decide_eq_false_iff_not, decide_eq_true_eq] at h1 hie
+            omega
+        simp [hlt]
 
 end Fit.Activity
